@@ -224,6 +224,9 @@ pub struct Ctx<'a> {
     pub removals: usize,
     pub faults: usize,
     pub last_was_removal: bool,
+    /// the previous snapshot of this run's graph (type-erased: `into_edge_type` changes the
+    /// static type), destination of the next `clone_from`
+    pub stash: Option<Box<dyn std::any::Any>>,
 }
 
 impl Ctx<'_> {
@@ -315,6 +318,7 @@ where
         removals: 0,
         faults: 0,
         last_was_removal: false,
+        stash: None,
     };
     run_steps(sut, &mut ctx, &mut feed)
 }
@@ -1338,7 +1342,18 @@ fn apply<S: AdjSut>(sut: &mut S, cx: &mut Ctx, op: &Op, kind: &'static str) -> R
         }
         Op::IntoEdgeType { .. } => unreachable!(),
         Op::Clone { clone_from } => {
-            if let Err(p) = catch(|| sut.clone_replace(*clone_from)) {
+            if *clone_from {
+                // snapshot / restore: the destination is the snapshot taken at the previous
+                // clone_from of this run (an earlier state of the same graph, so the two
+                // share a prefix of indices with different contents), or a small unrelated
+                // graph the first time
+                let prev: Option<S> = cx.stash.take().and_then(|b| b.downcast::<S>().ok()).map(|b| *b);
+                cx.acc.probe_if(prev.is_some(), "clone_from_onto_earlier_snapshot");
+                match catch(|| sut.clone_from_stash(prev)) {
+                    Ok(old) => cx.stash = Some(Box::new(old)),
+                    Err(p) => fail!("panic", "clone_from panicked: {}", p),
+                }
+            } else if let Err(p) = catch(|| sut.clone_replace(false)) {
                 fail!("panic", "clone panicked: {}", p);
             }
         }
@@ -1692,6 +1707,7 @@ where
         removals: 0,
         faults: 0,
         last_was_removal: true,
+        stash: None,
     };
     // weights of a loaded graph need not be unique; the lock-step model identifies elements by
     // weight after multi-removals, so give every element a fresh one first
